@@ -8,8 +8,9 @@
    header, and no mdat has data the caller writes separately (lazyDataSize = 0). *)
 From V.lib Require Import Base.
 From V.c05 Require Import C05Model C05FragModel C05CodecModel.
+From V.c12 Require C12Model.
 From V.c02 Require Import C02AggModel C02AggSizeProofs C02AggOptProofs C02AggFragProofs C02AggFileProofs
-  C02AggPureProofs C02AggExamples.
+  C02AggPureProofs C02AggC12Proofs C02AggExamples.
 
 (* ---- bytes written = Size() afterwards = sum of the box lengths; every top-level box header is right;
         Size() beforehand is the same when trun optimisation is off; well-formedness is kept *)
@@ -155,6 +156,14 @@ Theorem C02_c05_moof_size : forall seq fr,
   amoof_size (of_c05_moof seq fr) = moof_size fr.
 Proof. exact of_c05_moof_size. Qed.
 Print Assumptions C02_c05_moof_size.
+
+(* ---- and C12's model of File.Encode in segment mode (which boxes, in which order) lists, for the structure
+        reached after Encode, exactly the boxes written here: same number, same order, Size() = bytes written *)
+Theorem C02_c12_order : forall f f' boxes,
+  afile_seg_mode f = true -> afile_encode f = (f', Ok boxes) -> afile_wf f = true ->
+  exists tbs, C12Model.encode_file (abs_file f') = Ok tbs /\ sizes tbs = blens boxes.
+Proof. exact file_c12. Qed.
+Print Assumptions C02_c12_order.
 
 (* ---- the hypotheses are satisfiable by non-trivial values *)
 (* a fragment with an emsg-like box, a traf with an extra box, two samples: optimisation shrinks it from 147 to
